@@ -51,6 +51,7 @@ func FilterMapCollection[K comparable, V any](collection []map[K]V, fn func(V) b
 		for _, v := range item {
 			if fn(v) {
 				filtered = append(filtered, item)
+				break
 			}
 		}
 	}
